@@ -576,7 +576,13 @@ def run(chk):
   extra = set()
   for x in walk_local(pg.node):
     if isinstance(x, ast.Assign) and dotted(x.targets[0]) == 'good_chars':
-      good = char_class_py(x.value)
+      if isinstance(x.value, ast.BinOp) and isinstance(x.value.op, ast.BitOr) and \
+          'good_chars' in (dotted(x.value.left), dotted(x.value.right)):
+        # good_chars = good_chars | <more>: the augmented form written out
+        other = x.value.right if dotted(x.value.left) == 'good_chars' else x.value.left
+        extra = char_class_py(other)
+      else:
+        good = char_class_py(x.value)
     if isinstance(x, ast.AugAssign) and dotted(x.target) == 'good_chars':
       extra = char_class_py(x.value)
   if good is None:
@@ -673,9 +679,86 @@ def run(chk):
       chk.ob('C06-R7', True, None, '%s %s' % (st.kind, st.source), st.reason, fi=st.fi,
              node=st.node, nontrivial=st.kind in ('for', 'comprehension'))
 
+  json_bridge(chk, cpp)
+
 
 def _utf8(s):
   try:
     return s.encode('latin-1').decode('utf-8')
   except (UnicodeEncodeError, UnicodeDecodeError):
     return s
+
+
+def _cwalk(n):
+  if isinstance(n, dict):
+    yield n
+    for c in n.get('inner') or []:
+      for y in _cwalk(c):
+        yield y
+
+
+def json_bridge(chk, cpp):
+  """The C++ rules reach Python as JSON text decoded by json.loads (strict):
+  a string value arrives unchanged only if the quote, the backslash and every
+  control character below 0x20 are escaped on the C++ side - whichever way a
+  string leaves Json::Escape."""
+  from sa.cppmodel import _string_of
+  chk.rule('C06-R8', 'the JSON bridge escapes what JSON requires: Json::Escape '
+           'escapes the quote, the backslash and every character below 0x20 on '
+           'every way out of the function', min_instances=2)
+  f = cpp.func('Json::Escape')
+  decl = f.decls[0]
+  where = 'parser_cpp/logica_parse.cpp:Json::Escape'
+  cases = set()
+  bound = 0
+  loops = [n for n in _cwalk(decl) if n.get('kind') in ('CXXForRangeStmt', 'ForStmt', 'WhileStmt')]
+  if not loops:
+    raise AnalysisError('Json::Escape: no per-character loop recognised')
+  loop = loops[0]
+  for n in _cwalk(loop):
+    if n.get('kind') == 'CaseStmt':
+      for c in _cwalk((n.get('inner') or [{}])[0]):
+        if c.get('kind') in ('CharacterLiteral', 'IntegerLiteral') and c.get('value') is not None:
+          cases.add(int(c['value']))
+    if n.get('kind') == 'BinaryOperator' and n.get('opcode') in ('<', '<='):
+      lits = [c for c in _cwalk((n.get('inner') or [{}, {}])[1])
+              if c.get('kind') in ('IntegerLiteral', 'CharacterLiteral')]
+      if lits:
+        v = int(lits[0]['value']) + (1 if n.get('opcode') == '<=' else 0)
+        bound = max(bound, v)
+  required = {34, 92} | set(range(32))
+  escaped = cases | set(range(bound))
+  missing = sorted(required - escaped)
+  chk.ob('C06-R8', not missing, where,
+         'the per-character loop escapes the quote, the backslash and all of 0x00-0x1f',
+         'characters %s leave Json::Escape raw: json.loads rejects the rule tree (or '
+         'reads another string) where the Python parser accepts the program' % missing[:6])
+  # ways out that do not go through the loop
+  body = [c for c in decl.get('inner') or [] if c.get('kind') == 'CompoundStmt'][0]
+  top = body.get('inner') or []
+  early = []
+  for st in top:
+    if st is loop:
+      break
+    for r in _cwalk(st):
+      if r.get('kind') == 'ReturnStmt':
+        early.append((st, r))
+  bad = None
+  for st, r in early:
+    covered = set()
+    for c in _cwalk(st):
+      if c.get('kind') == 'CXXMemberCallExpr':
+        callee = (c.get('inner') or [{}])[0]
+        if callee.get('name') in ('find_first_of',):
+          for a_ in (c.get('inner') or [])[1:]:
+            lit = _string_of(a_)
+            if lit is not None:
+              covered |= {ord(ch) for ch in lit}
+    if not required <= covered:
+      bad = sorted(required - covered)
+  chk.ob('C06-R8', bad is None, where,
+         'no string leaves Json::Escape around the per-character loop unless a test '
+         'excludes every character the loop escapes (%d early exits)' % len(early),
+         'an early return hands the input back although it may contain characters %s%s, '
+         'which the loop would escape: such a string literal makes the C++ tree '
+         'undecodable' % (bad[:5] if bad else '', '...' if bad and len(bad) > 5 else ''))
